@@ -13,6 +13,7 @@ import (
 	"github.com/lianxiangcloud/linkchain/libs/ser"
 	"github.com/lianxiangcloud/linkchain/types"
 
+	"verif/sim/ed25519x"
 	"verif/sim/kernel"
 )
 
@@ -310,6 +311,18 @@ func (e *Engine) signSpend(w *Wallet, sources []*types.UTXOSourceEntry, dests []
 		if err != nil {
 			return
 		}
+		if tw := e.twist; tw != nil {
+			// adversarial: every key image gets a small-order component before
+			// the (short-ring) signatures are made over it
+			for i := range ephs {
+				var twisted lk.Key
+				if twisted, err = xcrypto.AddKeys(ephs[i].KeyImage, *tw); err != nil {
+					return
+				}
+				ephs[i].KeyImage = twisted
+				tx.Inputs[i].(*types.UTXOInput).KeyImage = twisted
+			}
+		}
 		err = types.UInTransWithRctSig(tx, sources, ephs, dests, mkeys)
 	})
 	if panicked {
@@ -426,3 +439,29 @@ func (e *Engine) noteUtxoCommitted(b *types.Block) {
 		}
 	}
 }
+
+// ---------------------------------------------------------------- the rig's own key-image canonicality rule
+
+// groupOrderL is the order l of the prime-order subgroup, little endian.
+var groupOrderL = [32]byte{0xed, 0xd3, 0xf5, 0x5c, 0x1a, 0x63, 0x12, 0x58, 0xd6, 0x9c, 0xf7, 0xa2, 0xde, 0xf9, 0xde, 0x14, 0, 0, 0, 0, 0, 0, 0, 0, 0, 0, 0, 0, 0, 0, 0, 0x10}
+
+// KeyImageClass judges a key image with the rig's own curve code
+// (verif/sim/ed25519x): whether it lies in the prime-order subgroup (l*I is
+// the identity) and its cofactor-cleared form 8*I, under which two key images
+// that differ only by a small-order component are the same spend.
+func KeyImageClass(k lk.Key) (prime bool, cleared [32]byte, err error) {
+	var p ed25519x.Point
+	if _, err = p.SetBytesMonero(k[:]); err != nil {
+		return false, cleared, err
+	}
+	var lp, c ed25519x.Point
+	lp.VarTimeScalarMultInt(&groupOrderL, &p)
+	c.MultByCofactor(&p)
+	return lp.IsIdentity(), c.Bytes32(), nil
+}
+
+// Small-order points of edwards25519 used as twists.
+var (
+	torsion2 = lk.Key{0xec, 0xff, 0xff, 0xff, 0xff, 0xff, 0xff, 0xff, 0xff, 0xff, 0xff, 0xff, 0xff, 0xff, 0xff, 0xff, 0xff, 0xff, 0xff, 0xff, 0xff, 0xff, 0xff, 0xff, 0xff, 0xff, 0xff, 0xff, 0xff, 0xff, 0xff, 0x7f} // (0,-1), order 2
+	torsion4 = lk.Key{}                                                                                                                                                                                               // (sqrt(-1), 0), order 4
+)
